@@ -62,6 +62,9 @@ Ops(s) ==
   \cup {[op |-> "div_tensor", aux |-> a] : a \in {"same", "plain", "scaled_self"}}
   \cup {[op |-> "add_tensor", aux |-> a] : a \in {"same", "scaled_self"}}
   \cup {[op |-> o] : o \in {"neg", "relu", "clone", "detach", "abs", "add1", "sum", "gelu", "contiguous", "roundtrip"}}
+  \* pass-through functions called with KEYWORD arguments (the fallback must hand them on): x.sum(dim=-1, keepdim=True),
+  \* torch.clamp(x, min=.., max=..), F.gelu(x, approximate="tanh"), torch.mean(x, dim=0)
+  \cup {[op |-> o] : o \in {"sum_kw", "clamp_kw", "gelu_kw", "mean_kw"}}
   \cup {[op |-> "softmax", dim |-> Rank(s)]}
   \cup {[op |-> "where", aux |-> a] : a \in {"plain", "same"}}
   \cup {[op |-> "lt", aux |-> a] : a \in {"same", "scale2", "otherq", "plain", "scaled_self"}}
@@ -90,6 +93,8 @@ FloatShape(s, o) ==
     [] o.op = "stack" -> InsertAt(s, o.dim, IF o.aux = "three" THEN 3 ELSE 2)
     [] o.op = "split" -> [s EXCEPT ![o.dim] = o.size]
     [] o.op = "sum" -> <<>>
+    [] o.op = "sum_kw" -> [s EXCEPT ![Rank(s)] = 1]
+    [] o.op = "mean_kw" -> Tail(s)
     [] o.op \in {"matmul", "bmm", "linear"} -> IF Rank(s) = 1 THEN <<2>> ELSE [s EXCEPT ![Rank(s)] = 2]
     [] o.op \in {"mul_t1", "div_t1"} -> IF Len(o.oshape) > Rank(s) THEN <<1>> \o s ELSE s       \* broadcasting with (1,) / (1, 1)
     [] OTHER -> s
